@@ -583,7 +583,7 @@ Lemma sim_step k cl lg sn pend cnt late e rest cl' lg' sn' ok pend' cnt' late' :
   (core e = true -> ok = true) /\
   (rest = [] \/ (inv2 cl' lg' sn' pend' cnt' late' /\ lg' = log_step cmds lg e /\ length (nodes cl') = k)).
 Proof. intros [I R] Hk Hw Em Es El.
-  destruct e as [c|n j|n j|n okk|n|n src kk lbl|n|c n|n o|n cs|n l|n m0 o|n m0 q o];
+  destruct e as [c|n j|n j|n okk|n|n src kk lbl|n|c n|n o|n cs|n l|n m0 o|n m0 q o|n];
     unfold model_step in Em; cbv zeta in Em; cbn [spec_step] in Es; cbn [late_step] in El; cbn [wf_step] in Hw; cbn [core log_step].
   - (* OCommit *) split_model Em Ha. injection Es as <- <- <-. injection El as <- <- <-. apply Nat.ltb_lt in Hw.
     split; [reflexivity|]. right. rewrite Ha. split; [|split; [reflexivity|now rewrite step_nodes_length]].
@@ -635,7 +635,9 @@ Proof. intros [I R] Hk Hw Em Es El.
     match type of Em with (match ?f with Some _ => _ | None => _ end) = _ => destruct f as [c|] eqn:F end; [|discriminate].
     apply (sim_recovered cl lg sn (nn n) (nn m0) o c I); [lia|exact F].
   - (* OReady *) split_model Em Eok. injection Es as <- <- <-. injection El as <- <- <-.
-    split; [discriminate|]. right. split; [split; [exact I|exact R]|split; [reflexivity|exact Hk]]. Qed.
+    split; [discriminate|]. right. split; [split; [exact I|exact R]|split; [reflexivity|exact Hk]].
+  - (* OStopped *) split_model Em Eok. injection Es as <- <- <-. injection El as <- <- <-.
+    split; [reflexivity|]. right. split; [split; [exact I|exact R]|split; [reflexivity|exact Hk]]. Qed.
 
 (* ---------- the whole trace ---------- *)
 Lemma sim_run k : forall es cl lg sn pend cnt late, inv2 cl lg sn pend cnt late -> length (nodes cl) = k ->
@@ -690,15 +692,16 @@ Proof. intros Hp Ht Hw Hm. destruct (tag_of_0 _ _ Ht) as [Hs Hl].
 (* with the conjunct of C17, the whole monitor: a trace the model accepts fails the monitor only with a tag *)
 Lemma model_passes_spec_okb_l k cmds es :
   tag_of cmds es = 0 -> trace_wf k cmds es = true -> model_eqb k cmds es = true ->
-  spec_run_sel (fun e => negb (core e)) cmds [] (repeat snode0 (nn k)) es = true -> spec_okb k cmds es = true.
-Proof. intros Ht Hw Hm Ha. unfold spec_okb. destruct (forallb in_premise cmds) eqn:Hp; [|reflexivity].
-  rewrite spec_run_split, Ha, (model_passes_monitor_l k cmds es Hp Ht Hw Hm). reflexivity. Qed.
+  spec_run_sel (fun e => negb (core e)) cmds [] (repeat snode0 (nn k)) es = true -> stop_run stopst0 es = true ->
+  spec_okb k cmds es = true.
+Proof. intros Ht Hw Hm Ha Hs. unfold spec_okb. destruct (forallb in_premise cmds) eqn:Hp; [|reflexivity].
+  rewrite spec_run_split, Ha, Hs, (model_passes_monitor_l k cmds es Hp Ht Hw Hm). reflexivity. Qed.
 
 Lemma no_untagged_failure_l k cmds es :
   trace_wf k cmds es = true -> model_eqb k cmds es = true ->
-  spec_run_sel (fun e => negb (core e)) cmds [] (repeat snode0 (nn k)) es = true ->
+  spec_run_sel (fun e => negb (core e)) cmds [] (repeat snode0 (nn k)) es = true -> stop_run stopst0 es = true ->
   spec_okb k cmds es = false -> tag_of cmds es <> 0.
-Proof. intros Hw Hm Ha Hf Ht. rewrite (model_passes_spec_okb_l k cmds es Ht Hw Hm Ha) in Hf. discriminate. Qed.
+Proof. intros Hw Hm Ha Hs Hf Ht. rewrite (model_passes_spec_okb_l k cmds es Ht Hw Hm Ha Hs) in Hf. discriminate. Qed.
 
 (* ---------- the atomic guard of the theorems implies that the recogniser is silent ---------- *)
 Lemma pending_apply_entry op nd : pending (apply_entry op nd) = pending nd.
@@ -744,7 +747,7 @@ Proof. induction es as [|e r IH]; intros lg cl pend cnt J Hg Hm; [reflexivity|].
   cbn [guard_run] in Hg. apply andb_true_iff in Hg. destruct Hg as [Hg1 Hg2].
   cbn [model_run] in Hm. destruct (model_step cmds lg cl e) as [cl' ok] eqn:Em. apply andb_true_iff in Hm. destruct Hm as [-> Hm].
   cbn [fst] in Hg2. cbn [late_restore].
-  destruct e as [c|n j|n j|n okk|n|n src kk lbl|n|c n|n o|n cs|n l|n m0 o|n m0 q o];
+  destruct e as [c|n j|n j|n okk|n|n src kk lbl|n|c n|n o|n cs|n l|n m0 o|n m0 q o|n];
     unfold model_step in Em; cbv zeta in Em; cbn [late_step guard_step] in *.
   - (* OCommit *) split_model Em Ha. eapply IH; [|exact Hg2|exact Hm]. intros n Hn. rewrite pending_step_same; auto.
   - (* OApply *) split_model Em Ha. apply is_none_true in Hg1. eapply IH; [|exact Hg2|exact Hm]. intros n' Hn.
@@ -776,7 +779,8 @@ Proof. induction es as [|e r IH]; intros lg cl pend cnt J Hg Hm; [reflexivity|].
   - (* OTrk *) split_model Em Ha. eapply IH; [|exact Hg2|exact Hm]; exact J.
   - (* OOffline *) split_model Em Ha. cbn [is_late existsb]. rewrite andb_false_r. eapply IH; [|exact Hg2|exact Hm]; exact J.
   - (* ORecovered *) apply andb_true_iff in Hg1. destruct Hg1 as [_ G2]. destruct r; [reflexivity|discriminate].
-  - (* OReady *) split_model Em Ha. eapply IH; [|exact Hg2|exact Hm]; exact J. Qed.
+  - (* OReady *) split_model Em Ha. eapply IH; [|exact Hg2|exact Hm]; exact J.
+  - (* OStopped *) split_model Em Ha. eapply IH; [|exact Hg2|exact Hm]; exact J. Qed.
 
 Lemma atomic_not_late_l k cmds es : trace_guard k cmds es = true -> model_eqb k cmds es = true -> late_restore [] [] [] es = false.
 Proof. intros Hg Hm. apply (atomic_not_late_run cmds (nn k) es [] (init (nn k))); auto. intros n H. discriminate. Qed.
@@ -804,7 +808,7 @@ Lemma fold_apply_log n : forall m cl, log (fold_left step (repeat (MApply n) m) 
 Proof. induction m as [|m IH]; intros cl; [reflexivity|]. cbn [repeat fold_left]. rewrite IH. now apply step_log_same. Qed.
 Lemma model_step_log cmds lg cl e : log cl = map (cmd_of cmds) lg ->
   log (fst (model_step cmds lg cl e)) = map (cmd_of cmds) (log_step cmds lg e).
-Proof. intros H. destruct e as [c|n j|n j|n okk|n|n src kk lbl|n|c n|n o|n cs|n l|n m0 o|n m0 q o];
+Proof. intros H. destruct e as [c|n j|n j|n okk|n|n src kk lbl|n|c n|n o|n cs|n l|n m0 o|n m0 q o|n];
     unfold model_step; cbv zeta; cbn [fst log_step]; auto; try (rewrite step_log_same; [exact H|reflexivity]).
   - cbn [step]. destruct (accepts (cmd_of cmds c)); [|exact H]. cbn [log]. now rewrite map_app, H.
   - match goal with |- context [find ?f ?l] => destruct (find f l) as [c|] eqn:F end; cbn [fst].
@@ -857,6 +861,106 @@ Proof. intros Hp Ht Hw Hm. cbv zeta. destruct (ack_in_log_l k cmds pre c n post 
   - pose proof (pi_core _ _ _ (inv_get cmds _ _ sn' (nn n) I)) as [_ _ _ _ Hst]. rewrite Hst.
     intros x Hx Hsl. eapply last_write_visible; eauto. Qed.
 
+(* ---------- clean shutdown: nothing acknowledged is lost ---------- *)
+(* a replica that has been given an entry is initialised (clean ops) *)
+Definition node_sane2 (nd : node) : Prop := node_sane nd /\ (inited nd = false -> applied nd = 0%nat).
+Lemma step_sane2 cl e : forallb good_op (log cl) = true -> Forall node_sane2 (nodes cl) -> clean_ev e = true ->
+  forallb good_op (log (step cl e)) = true /\ Forall node_sane2 (nodes (step cl e)).
+Proof.
+  intros HL HN Hc. destruct e as [op|n|n|n|n src k|n]; cbn [step clean_ev] in *.
+  - destruct (accepts op) eqn:Ha; [|split; auto]. split; cbn [log nodes]; auto.
+    rewrite forallb_app, HL. cbn [forallb]. unfold good_op. now rewrite Hc, Ha.
+  - destruct (nth_error (log cl) (applied (getn n cl))) as [op|] eqn:Hn; [|split; auto].
+    split; cbn [log nodes]; auto. apply Forall_upd; auto. intros x Hx [[G1 [G2 G3]] G4].
+    assert (Hg : good_op op = true) by (rewrite forallb_forall in HL; apply HL; eapply nth_error_In; eauto).
+    apply andb_true_iff in Hg. destruct Hg as [Hcl Ha].
+    destruct (apply_entry_clean op x Hcl Ha G1 G2) as [_ [_ [E3 [E4 [E5 [_ [_ E8]]]]]]].
+    split; [repeat split; congruence|]. rewrite E8. discriminate.
+  - split; cbn [log nodes]; auto. apply Forall_upd; auto. intros x _ [[G1 [G2 G3]] G4]. unfold snap_req. rewrite G2.
+    split; [repeat split; auto|exact G4].
+  - split; cbn [log nodes]; auto. apply Forall_upd; auto. intros x _ [[G1 [G2 G3]] G4]. unfold snap_persist.
+    destruct (pending x); (split; [repeat split; auto|exact G4]).
+  - destruct (nth_error (snaps (getn src cl)) k) as [s|]; [|split; auto].
+    split; cbn [log nodes]; auto. apply Forall_upd; auto. intros x _ [[G1 [G2 G3]] G4]. unfold restore. rewrite G2.
+    split; [repeat split; auto|cbn [inited]; discriminate].
+  - split; cbn [log nodes]; auto. apply Forall_upd; auto. intros x _ _. split; [repeat split; auto|reflexivity].
+Qed.
+Lemma run_sane2 es : forall cl, forallb good_op (log cl) = true -> Forall node_sane2 (nodes cl) -> forallb clean_ev es = true ->
+  Forall node_sane2 (nodes (run cl es)).
+Proof.
+  unfold run. induction es as [|e r IH]; intros cl HL HN Hc; cbn [fold_left forallb] in *; auto.
+  apply andb_true_iff in Hc. destruct Hc as [Hc1 Hc2]. destruct (step_sane2 cl e HL HN Hc1) as [HL' HN']. now apply IH.
+Qed.
+Lemma given_is_inited k es n nd : forallb clean_ev es = true -> nth_error (nodes (run (init k) es)) n = Some nd ->
+  (0 < applied nd)%nat -> inited nd = true.
+Proof.
+  intros Hc Hn Ha. assert (H0 : Forall node_sane2 (nodes (init k))).
+  { cbn [init nodes]. apply Forall_forall. intros x Hx. apply repeat_spec in Hx. subst x. split; [repeat split; reflexivity|reflexivity]. }
+  pose proof (run_sane2 es (init k) eq_refl H0 Hc) as HN. rewrite Forall_forall in HN.
+  destruct (HN nd (nth_error_In _ _ Hn)) as [_ G4]. destruct (inited nd); [reflexivity|]. specialize (G4 eq_refl). lia.
+Qed.
+
+(* the final snapshot of a clean shutdown is the replica's whole state under the label of its position; OfflineState reads it,
+   and so does the process that starts again on the folder *)
+Lemma shutdown_keeps_l cl n nd : nth_error (nodes cl) n = Some nd -> node_strict (log cl) nd -> inited nd = true ->
+  let cl' := run cl (shutdown n) in
+  offline (getn n cl') = st nd /\
+  (let cl'' := run cl' (from_disk n (length (snaps nd))) in st (getn n cl'') = st nd /\ applied (getn n cl'') = applied nd).
+Proof.
+  intros Hn [H1 H2 H3 H4 H5 H6 H7] Hi. cbv zeta. unfold run, shutdown, from_disk. cbn [fold_left step log nodes].
+  assert (Hsorted : sorted (st nd)) by (rewrite H5; apply sorted_replay).
+  assert (E1 : nth_error (upd n snap_req (nodes cl)) n = Some (snap_req nd)) by (now rewrite nth_error_upd, Nat.eqb_refl, Hn).
+  assert (E2 : nth_error (upd n snap_persist (upd n snap_req (nodes cl))) n = Some (snap_persist (snap_req nd)))
+    by (now rewrite nth_error_upd, Nat.eqb_refl, E1).
+  assert (Ep : snap_persist (snap_req nd) =
+               mknode (st nd) (applied nd) (inited nd) (incons nd) (dirty nd) false None (snaps nd ++ [(applied nd, st nd)]) (calls nd) (optype nd)).
+  { unfold snap_req. rewrite H2, Hi, H3. reflexivity. }
+  split.
+  - rewrite getn_upd_same, E1. rewrite Ep. unfold offline. cbn [snaps]. rewrite rev_app_distr. cbn [rev app snd].
+    now apply restore_merge_nil_id.
+  - set (nodes2 := upd n snap_persist (upd n snap_req (nodes cl))).
+    assert (E3 : nth_error (upd n restart nodes2) n = Some (restart (snap_persist (snap_req nd))))
+      by (unfold nodes2; now rewrite nth_error_upd, Nat.eqb_refl, E2).
+    assert (Eg : getn n (mkcluster (log cl) (upd n restart nodes2)) = restart (snap_persist (snap_req nd)))
+      by (unfold getn; cbn [nodes]; now apply nth_error_nth).
+    cbn [log nodes]. rewrite Eg, Ep. cbn [restart snaps]. rewrite nth_error_app2, Nat.sub_diag by lia. cbn [nth_error].
+    rewrite getn_upd_same, E3, Ep. unfold restore. cbn [restart crashed st applied fst snd]. split; [now apply restore_onto_id|reflexivity].
+Qed.
+
+Lemma shutdown_loses_nothing_l k es n nd j op x :
+  forallb clean_ev es = true -> run_ok ev_atomic (init k) es = true -> nth_error (nodes (run (init k) es)) n = Some nd ->
+  nth_error (log (run (init k) es)) j = Some op -> (j < applied nd)%nat ->
+  writes x op = true -> existsb (writes x) (slice (S j) (applied nd) (log (run (init k) es))) = false ->
+  let cl' := run (run (init k) es) (shutdown n) in
+  sget x (offline (getn n cl')) = effect op /\
+  sget x (st (getn n (run cl' (from_disk n (length (snaps nd)))))) = effect op.
+Proof.
+  intros Hc Ha Hn Hj Hlt Hw Hs. cbv zeta.
+  pose proof (strict_node k es n nd Hc Ha Hn) as S. pose proof S as [_ _ _ _ S5 _ _].
+  assert (Hi : inited nd = true) by (apply (given_is_inited k es n nd Hc Hn); lia).
+  destruct (shutdown_keeps_l (run (init k) es) n nd Hn S Hi) as [E1 [E2 _]].
+  rewrite E1, E2, S5. split; eapply last_write_visible; eauto.
+Qed.
+
+(* without the lock: an operation committed, applied and acknowledged at the replica between its final snapshot and its stop
+   is not in what it leaves on disk for OfflineState *)
+Definition shutdown_race_events : list mevent :=
+  [MCommit (LPin (wpin 0 1)); MApply 0; MSnapReq 0; MPersist 0; MCommit (LPin (wpin 1 1)); MApply 0].
+Lemma shutdown_race_loses :
+  let cl := run (init 1) shutdown_race_events in
+  forallb clean_ev shutdown_race_events = true /\ run_ok ev_atomic (init 1) shutdown_race_events = true /\
+  nth_error (log cl) 1 = Some (LPin (wpin 1 1)) /\ applied (getn 0 cl) = 2%nat /\ sget 1 (offline (getn 0 cl)) = None.
+Proof. vm_compute. repeat split; reflexivity. Qed.
+
+Lemma shutdown_race_refuted_l :
+  exists k es n j op x, forallb clean_ev es = true /\ run_ok ev_atomic (init k) es = true /\
+    nth_error (log (run (init k) es)) j = Some op /\ (j < applied (getn n (run (init k) es)))%nat /\ writes x op = true /\
+    sget x (offline (getn n (run (init k) es))) <> effect op.
+Proof. exists 1%nat, shutdown_race_events, 0%nat, 1%nat, (LPin (wpin 1 1)), 1.
+  destruct shutdown_race_loses as [H1 [H2 [H3 [H4 H5]]]].
+  split; [exact H1|]. split; [exact H2|]. split; [exact H3|]. split; [rewrite H4; lia|]. split; [reflexivity|].
+  rewrite H5. discriminate. Qed.
+
 (* ---------- soundness: the Prop-level reading of an accepted trace ---------- *)
 (* `lg` is the committed sequence (command numbers) and `sn` the monitor's bookkeeping per replica (next position, positions
    applied so far, snapshot labels), both folded from the trace by spec_step *)
@@ -891,7 +995,7 @@ Proof. intros H. apply existsb_exists in H. destruct H as [m [Hm He]]. apply in_
   exists m. split; [lia|now symmetry]. Qed.
 
 Lemma event_sound cmds lg sn e : snd (spec_step cmds lg sn e) = true -> event_spec cmds lg sn e.
-Proof. destruct e as [c|n j|n j|n okk|n|n src kk lbl|n|c n|n o|n cs|n l|n m0 o|n m0 q o]; cbn [spec_step snd event_spec]; cbv zeta; intros H; auto.
+Proof. destruct e as [c|n j|n j|n okk|n|n src kk lbl|n|c n|n o|n cs|n l|n m0 o|n m0 q o|n]; cbn [spec_step snd event_spec]; cbv zeta; intros H; auto.
   - apply andb_true_iff in H. destruct H as [H1 H2]. apply Nat.eqb_eq in H1. apply Nat.ltb_lt in H2. auto.
   - discriminate.
   - now apply Nat.leb_le.
@@ -910,4 +1014,16 @@ Proof. induction es as [|e r IH]; intros lg sn H; [exact I|]. cbn [spec_run] in 
 
 Lemma monitor_sound_l k cmds es : forallb in_premise cmds = true -> spec_okb k cmds es = true ->
   trace_spec cmds [] (repeat snode0 (nn k)) es.
-Proof. intros Hp H. unfold spec_okb in H. rewrite Hp in H. now apply spec_run_sound. Qed.
+Proof. intros Hp H. unfold spec_okb in H. rewrite Hp in H. apply andb_true_iff in H. destruct H as [H _]. now apply spec_run_sound. Qed.
+
+(* pass 3 read back: when Shutdown has returned on n, 1 + the highest position acknowledged at n is not above the highest
+   label n has persisted *)
+Fixpoint stop_after (s : stopst) (pre : list oevent) : stopst :=
+  match pre with [] => s | e :: r => stop_after (fst (stop_step s e)) r end.
+Lemma stop_run_sound_l : forall pre s n post, stop_run s (pre ++ OStopped n :: post) = true ->
+  (nget n (t_ack (stop_after s pre)) <= nget n (t_lbl (stop_after s pre)))%nat.
+Proof. induction pre as [|e r IH]; intros s n post H.
+  - cbn [app stop_run stop_step stop_after] in *. apply andb_true_iff in H. destruct H as [H _]. now apply Nat.leb_le.
+  - cbn [app stop_run stop_after] in *. destruct (stop_step s e) as [s' ok]. apply andb_true_iff in H. destruct H as [_ H].
+    cbn [fst]. eapply IH; eauto. Qed.
+
